@@ -100,6 +100,7 @@ func cmdCheck(args []string) int {
 	workers := fs.Int("workers", runtime.NumCPU(), "")
 	noReplay := fs.Bool("no-replay", false, "")
 	noEvidence := fs.Bool("no-evidence", false, "")
+	noWitness := fs.Bool("no-witness", false, "skip the native replay of reach witnesses")
 	var overrides multiFlag
 	fs.Var(&overrides, "param", "K=V override")
 	fs.Parse(args)
@@ -264,6 +265,11 @@ func cmdCheck(args []string) int {
 			fmt.Printf("  run=%s site=%s %s\n  %s\n", res.Spec.Name, v.Site, v.Msg, desc)
 			exit = 1
 		}
+	}
+	if !*noReplay && !*noWitness {
+		nok, bad := validateWitnesses(results, ld)
+		validated += nok
+		inconclusive = append(inconclusive, bad...)
 	}
 	if exit == 0 && len(inconclusive) > 0 {
 		exit = 2
